@@ -1,5 +1,5 @@
 (* star-wasm wrapper and the reference aggregation server *)
-From Coq Require Import ZArith NArith Arith Bool List Lia.
+From Coq Require Import ZArith NArith Arith Bool List Lia Permutation.
 Import ListNotations.
 Require Import ZifyN.
 Ltac Zify.zify_post_hook ::= Z.div_mod_to_equations.
@@ -389,4 +389,131 @@ Proof.
     + destruct shs; [congruence|discriminate].
     + apply Forall_forall. intros ch Hch. apply in_map_iff in Hch. destruct Hch as [s [<- _]]. apply b64_no_newline.
 Qed.
+
+(* ---------- the whole aggregation on honest reports ---------- *)
+Record gspec := { gm : bytes; grnd : bytes; gpolys : list (list fp) }.
+Definition item := (gspec * (option bytes * fp))%type.
+Definition itag (it : item) : bytes := r2 F (grnd (fst it)).
+
+Section Agg.
+Variables (e : bytes) (t : N).
+Definition imsg (it : item) : message := report_of F (gm (fst it)) e t (grnd (fst it)) (gpolys (fst it)) (snd it).
+Definition clients_of (items : list item) (T : bytes) : list (option bytes * fp) :=
+  map snd (filter (fun it => bytes_eqb (itag it) T) items).
+Definition gm_of (items : list item) (T : bytes) : bytes :=
+  match find (fun it => bytes_eqb (itag it) T) items with Some it => gm (fst it) | None => [] end.
+Definition qualifies (items : list item) (T : bytes) : bool := (t <=? N.of_nat (length (clients_of items T)))%N.
+
+Lemma star_reports_of m rnd polys clients :
+  polys_from F t (sharing_of F (commune_of F t rnd)) = Ok (Some polys) ->
+  star_reports F m e t rnd clients = Ok (Some (map (report_of F m e t rnd polys) clients)).
+Proof.
+  intros Hp. unfold star_reports, shares_at. cbv zeta. cbn [cA commune_of]. rewrite Hp. cbv zeta.
+  rewrite (combine_map_snd (mk_share t (sharing_of F (commune_of F t rnd)) polys) clients
+            (fun p => {| mCt := ct_new F (derive_ske_key F (r0 F rnd) e) (payload m (fst (fst p))) Params.lbl_star_encrypt;
+                         mShare := snd p; mTag := r2 F rnd |})).
+  reflexivity.
+Qed.
+
+Lemma filter_map_comm {A B} (f : B -> bool) (g : A -> B) l : filter f (map g l) = map g (filter (fun a => f (g a)) l).
+Proof. induction l as [|a l IH]; cbn [map filter]; [reflexivity|]. destruct (f (g a)); cbn [map]; rewrite IH; reflexivity. Qed.
+Lemma all_ok_map {A B} (f : A -> outcome B) (g : A -> B) l : (forall a, In a l -> f a = Ok (g a)) -> all_ok (map f l) = Ok (map g l).
+Proof.
+  induction l as [|a l IH]; intros H; cbn [map all_ok]; [reflexivity|].
+  rewrite (H a (or_introl eq_refl)). rewrite IH by (intros b Hb; apply H; right; exact Hb). reflexivity.
+Qed.
+Lemma first_tags_in l T : In T (first_tags l) -> exists m, In m l /\ mTag m = T.
+Proof.
+  induction l as [|m l IH] using rev_ind; intros H; [destruct H|]. rewrite first_tags_snoc in H.
+  destruct (existsb _ _).
+  - destruct (IH H) as [m0 [Hin E]]. exists m0. split; [apply in_or_app; left; exact Hin|exact E].
+  - apply in_app_or in H. destruct H as [H|[E|[]]].
+    + destruct (IH H) as [m0 [Hin E]]. exists m0. split; [apply in_or_app; left; exact Hin|exact E].
+    + exists m. split; [apply in_or_app; right; left; reflexivity|exact E].
+Qed.
+
+(* every report is honest, groups are told apart by their tags, every group that reaches the threshold has
+   t distinct share points: the output is, in the order tags are first seen, one entry per group with at
+   least t reports, carrying the group's measurement and its clients' associated data in input order *)
+Theorem aggregate_honest (items : list item) :
+  (1 <= t < two32)%N ->
+  Forall (fun it => fits32 (gm (fst it)) /\ client_ok (gm (fst it)) (snd it) /\
+                    polys_from F t (sharing_of F (commune_of F t (grnd (fst it)))) = Ok (Some (gpolys (fst it)))) items ->
+  (forall a b, In a items -> In b items -> itag a = itag b -> fst a = fst b) ->
+  (forall T, qualifies items T = true ->
+     (t <= N.of_nat (length (nodup fp_eq_dec (map snd (clients_of items T)))))%N) ->
+  aggregate F t e (map imsg items) =
+  Ok (map (fun T => (gm_of items T, map (fun cl => norm_aux (fst cl)) (clients_of items T)))
+          (filter (qualifies items) (first_tags (map imsg items)))).
+Proof.
+  intros Ht Hhon Hinj Hdist. unfold aggregate. rewrite collect_spec. unfold buckets_of.
+  assert (Hb : forall T, filter (has_tag T) (map imsg items) = map imsg (filter (fun it => bytes_eqb (itag it) T) items)).
+  { intros T. apply filter_map_comm. }
+  rewrite filter_map_comm. cbn [snd]. rewrite map_map. cbn [snd].
+  assert (Hq : forall T, (t <=? N.of_nat (length (filter (has_tag T) (map imsg items))))%N = qualifies items T).
+  { intros T. unfold qualifies, clients_of. rewrite Hb, !map_length. reflexivity. }
+  rewrite (filter_ext _ _ Hq).
+  apply all_ok_map. intros T HT. apply filter_In in HT. destruct HT as [HTin HTq].
+  destruct (first_tags_in _ _ HTin) as [m0 [Hm0 Etag]]. apply in_map_iff in Hm0. destruct Hm0 as [it0 [<- Hit0]].
+  change (mTag (imsg it0)) with (itag it0) in Etag.
+  (* all items with this tag belong to it0's group *)
+  set (g := fst it0).
+  assert (Hgrp : forall it, In it (filter (fun it => bytes_eqb (itag it) T) items) -> fst it = g).
+  { intros it Hin. apply filter_In in Hin. destruct Hin as [Hin E]. apply bytes_eqb_eq in E.
+    apply (Hinj it it0 Hin Hit0). congruence. }
+  assert (Hbucket : filter (has_tag T) (map imsg items)
+                    = map (report_of F (gm g) e t (grnd g) (gpolys g)) (clients_of items T)).
+  { rewrite Hb. unfold clients_of. rewrite map_map. apply map_ext_in. intros it Hin. unfold imsg. rewrite (Hgrp it Hin). reflexivity. }
+  rewrite Hbucket.
+  rewrite Forall_forall in Hhon. destruct (Hhon it0 Hit0) as (Hfm & _ & Hp). fold g in Hfm, Hp.
+  assert (Hne : clients_of items T <> []).
+  { unfold clients_of. intro E. apply map_eq_nil in E.
+    assert (Hin0 : In it0 (filter (fun it => bytes_eqb (itag it) T) items)).
+    { apply filter_In. split; [exact Hit0|]. rewrite Etag. apply bytes_eqb_refl. }
+    rewrite E in Hin0. destruct Hin0. }
+  assert (Hgm : gm_of items T = gm g).
+  { unfold gm_of. destruct (find (fun it => bytes_eqb (itag it) T) items) as [it1|] eqn:Ef.
+    - apply find_some in Ef. destruct Ef as [Hin1 E1]. apply bytes_eqb_eq in E1.
+      rewrite (Hinj it1 it0 Hin1 Hit0) by congruence. reflexivity.
+    - exfalso. pose proof (find_none _ _ Ef it0 Hit0) as Hn. cbv beta in Hn. rewrite Etag, bytes_eqb_refl in Hn. discriminate. }
+  rewrite Hgm.
+  apply (agg_bucket_honest (gm g) e t (grnd g) (clients_of items T)); try assumption.
+  - apply Forall_forall. intros cl Hcl. unfold clients_of in Hcl. apply in_map_iff in Hcl. destruct Hcl as [it [<- Hin]].
+    pose proof (Hgrp it Hin) as Eg. apply filter_In in Hin. destruct Hin as [Hin _].
+    destruct (Hhon it Hin) as (_ & Hc & _). rewrite Eg in Hc. exact Hc.
+  - apply star_reports_of. exact Hp.
+  - apply Hdist. exact HTq.
+Qed.
+
+(* order of the input: a permutation of the reports changes neither which groups qualify nor, per group, the
+   multiset of clients whose associated data is reported; the tags listed are the same set *)
+Lemma Permutation_filter' {A} (f : A -> bool) l l' : Permutation l l' -> Permutation (filter f l) (filter f l').
+Proof.
+  induction 1 as [|x l l' _ IH|x y l|l l' l'' _ IH1 _ IH2]; cbn [filter].
+  - constructor.
+  - destruct (f x); [constructor; exact IH|exact IH].
+  - destruct (f x), (f y); try reflexivity. apply perm_swap.
+  - eapply Permutation_trans; eassumption.
+Qed.
+Theorem clients_perm (items items' : list item) T : Permutation items items' ->
+  Permutation (clients_of items T) (clients_of items' T).
+Proof. intros H. unfold clients_of. apply Permutation_map, Permutation_filter'. exact H. Qed.
+Theorem qualifies_perm (items items' : list item) T : Permutation items items' ->
+  qualifies items T = qualifies items' T.
+Proof. intros H. unfold qualifies. rewrite (Permutation_length (clients_perm items items' T H)). reflexivity. Qed.
+Lemma first_tags_complete l m : In m l -> In (mTag m) (first_tags l).
+Proof.
+  intros Hin. destruct (first_tags_inv l) as [_ Hun].
+  destruct (in_dec (list_eq_dec N.eq_dec) (mTag m) (first_tags l)) as [H|H]; [exact H|exfalso].
+  specialize (Hun _ H). assert (Hf : In m (filter (has_tag (mTag m)) l)) by (apply filter_In; split; [exact Hin|apply has_tag_self]).
+  rewrite Hun in Hf. destruct Hf.
+Qed.
+Theorem first_tags_perm (l l' : list message) : Permutation l l' -> Permutation (first_tags l) (first_tags l').
+Proof.
+  intros H. apply NoDup_Permutation; try apply first_tags_inv.
+  intros T. split; intros HT; destruct (first_tags_in _ _ HT) as [m [Hm <-]]; apply first_tags_complete.
+  - eapply Permutation_in; eassumption.
+  - eapply Permutation_in; [apply Permutation_sym; eassumption|exact Hm].
+Qed.
+End Agg.
 End WF.
